@@ -558,4 +558,18 @@ def r15_5(ctx):
                     prints = any(b.term(x)["k"] == "call" and "_print" in (callee_of(b.term(x)) or "") for x in seen)
                     okerr = all(b.term(x)["k"] == "return" for x in ends) and prints and not any(
                         callee_of(b.term(x)) in ("uci::play_game_uci", "engine::play_game_against_self") for x in seen if b.term(x)["k"] == "call")
+                    # nothing in the error arm can panic: only the print machinery is called there, and
+                    # no compiler-inserted check sits in it
+                    region = {x for x in seen if not b.node_dominates(x, s) or x == errt[0] or b.node_dominates(errt[0], x)}
+                    region = {x for x in seen if b.node_dominates(errt[0], x)}
+                    for x in sorted(region):
+                        tx = b.term(x)
+                        if tx["k"] == "call":
+                            c = callee_of(tx) or ""
+                            fine = c.startswith("std::io::_print") or c.startswith("std::fmt::") or c.startswith("core::fmt::") or c.startswith("std::hint::must_use") or c in NOPANIC
+                            if not fine:
+                                ctx.ob("main:err-arm:call:%s" % c.split("::")[-1], False, b.where(b.term_loc(x)),
+                                       "`%s` in the error arm of the CLI: the arm must only print the error (string slicing, unwrap etc. can panic on some rejected input)" % c)
+                        elif tx["k"] == "assert":
+                            ctx.ob("main:err-arm:assert", False, b.where(b.term_loc(x)), "a compiler-inserted check (%s) in the error arm" % tx["assert_kind"])
         ctx.ob("main:err-arm-prints-and-returns", okerr, b.where(b.term_loc(bb)), "on Err the message is printed and main returns normally")
